@@ -460,6 +460,17 @@ def scenario_run(tape, out):
     cls = type("SyntheticTests", (testtools.TestCase,), body)
     cls.__module__ = mod.__name__
     mod.SyntheticTests = cls
+    # the module may hand the loader a suite of its own making (load_tests protocol): a FixtureSuite, whose
+    # run() does not return the result
+    wrapped = tape.chance("config", 1, 4, "load_tests-returns-a-FixtureSuite")
+    if wrapped:
+        import fixtures as _fx
+        from testtools.testsuite import FixtureSuite
+
+        def load_tests(loader, tests, pattern):
+            return FixtureSuite(_fx.Fixture(), [cls("test_%02d" % i) for i in range(n)])
+
+        mod.load_tests = load_tests
     stdout = io.StringIO()
     code = None
     argv = ["prog"] + (["-f"] if failfast else [])
@@ -504,18 +515,82 @@ def scenario_run(tape, out):
             out.violate("summary-mismatch", "run:verdict", f"{m.group(2)!r} with {bad} bad outcomes")
         if m.group(3) is not None and int(m.group(3)) != bad:
             out.violate("summary-mismatch", "run:failure-total", f"failures={m.group(3)} with {bad} bad outcomes")
+    if wrapped:
+        out.probe("run:load_tests-FixtureSuite")
     return ("run", None, (bad, failfast))
+
+
+# ------------------------------------------------------------------------------- scenario: old-style results
+def scenario_oldstyle(tape, out):
+    """Stop control over a result that has neither stop() nor shouldStop (a Twisted-style reporter): the
+    adapter keeps the flag itself - it must become true on stop()/failfast and a new run must start
+    with it false again."""
+    from simkit.targets import TTwisted
+
+    def gen(depth=0):
+        k = tape.weighted("config", [(3, "e2o"), (3, "multi"), (2, "tfr")] + ([(3, "old")] if depth else []), "oldstyle-layer")
+        if k == "old" or depth >= 3:
+            return ["old"]
+        if k == "multi":
+            return ["multi", gen(depth + 1)] + ([["result"]] if tape.chance("config", 1, 2, "second-child") else [])
+        return [k, gen(depth + 1)]
+
+    def make(spec, world):
+        k = spec[0]
+        if k == "old":
+            return TTwisted(world, "old#%d" % world.tick())
+        if k == "result":
+            return LoggingTestResult(world, "result#%d" % world.tick())
+        kids = [make(x, world) for x in spec[1:]]
+        if k == "e2o":
+            return ExtendedToOriginalDecorator(kids[0])
+        if k == "multi":
+            return MultiTestResult(*kids)
+        return ThreadsafeForwardingResult(kids[0], threading.Semaphore(1))
+
+    spec = gen()
+    world = World()
+    top = make(spec, world)
+    failfast = spec[0] in ("e2o", "multi") and tape.chance("config", 1, 2, "failfast")
+    if failfast:
+        top.failfast = True
+    how = tape.choice("program", ("explicit-stop", "failfast-outcome") if failfast else ("explicit-stop",), "how-stopped")
+    label = _shape(spec)
+    try:
+        top.startTestRun()
+        if top.shouldStop:
+            out.violate("failfast-early", f"oldstyle:fresh-run-starts-stopped:{label}", f"stack {spec}")
+        testtools.PlaceHolder("o1", outcome="addSuccess").run(top)
+        if top.shouldStop:
+            out.violate("failfast-early", f"oldstyle:stopped-after-success:{label}", f"stack {spec}")
+        if how == "explicit-stop":
+            top.stop()
+        else:
+            testtools.PlaceHolder("o2", outcome=tape.choice("program", ("addFailure", "addError"), "bad-outcome")).run(top)
+        if not top.shouldStop:
+            out.violate("failfast-late" if how != "explicit-stop" else "stop-not-propagated", f"oldstyle:{how}:{label}",
+                        f"after {how} shouldStop reads False; stack {spec}")
+        top.stopTestRun()
+        top.startTestRun()
+        if top.shouldStop:
+            out.violate("failfast-early", f"oldstyle:second-run-starts-stopped:{label}",
+                        f"a stop from the previous run ({how}) is still in force after startTestRun; stack {spec}")
+        top.stopTestRun()
+    except Exception as e:   # noqa
+        import traceback
+        out.violate("adapter-raised", "oldstyle:" + type(e).__name__, f"stack {spec}: {traceback.format_exc()[-600:]}")
+    return ("oldstyle", spec, (1 if how != "explicit-stop" else 0, True))
 
 
 def run_one(tape, opts):
     out = Outcome()
-    sc = tape.weighted("config", [(4, "history"), (4, "suite"), (1, "run")], "scenario")
+    sc = tape.weighted("config", [(8, "history"), (8, "suite"), (2, "run"), (1, "oldstyle")], "scenario")
     _CHILDREN.clear()
     clock = vclock.VClock()
     vclock.install(clock)
     warnings.filterwarnings("ignore", message="TestResult has no addDuration method")
     try:
-        name, spec, info = {"history": scenario_history, "suite": scenario_suite, "run": scenario_run}[sc](tape, out)
+        name, spec, info = {"history": scenario_history, "suite": scenario_suite, "run": scenario_run, "oldstyle": scenario_oldstyle}[sc](tape, out)
     finally:
         vclock.uninstall()
     out.probe("scenario:" + sc)
